@@ -69,11 +69,30 @@ def run_c19(ctx, C):
     codec_common(ctx, C, [GEN_BUILDERS], [], mcs=[MC_BUILDERS], traces=())
 
 
+GEN_HEAP = dict(module="Gen_Heap", name="heap", constants=dict(MaxOps=lambda ctx: 5 if ctx.thorough else 4), trace=False)
+MC_HEAP = dict(module="HeapLife", name="heap_design", constants=dict(CopyOnDecode=True, EncodeFresh=True, ProtectKeepsPayloads=True, MaxOps=6),
+               invariants=("DecodedStable", "EncodePure", "EncodeDeterministic", "ProtectFootprint"),
+               what="ownership model: decode copies, encode returns a fresh buffer, protect keeps the caller's payload objects")
+MC_HEAP_KNOBS = [dict(module="HeapLife", name="heap_knob_" + k, expect="violate",
+                      constants=dict(dict(CopyOnDecode=True, EncodeFresh=True, ProtectKeepsPayloads=True, MaxOps=6), **{k: False}),
+                      invariants=("DecodedStable", "EncodePure", "EncodeDeterministic", "ProtectFootprint"),
+                      what="sanity: with mechanism %s removed TLC must find a counterexample (the invariants are not vacuous)" % k)
+                 for k in ("CopyOnDecode", "EncodeFresh", "ProtectKeepsPayloads")]
+
+
+def run_c20(ctx, C):
+    codec_common(ctx, C, [GEN_HEAP], [], mcs=[MC_HEAP] + MC_HEAP_KNOBS, traces=())
+
+
 def run_c04(ctx, C):
     codec_common(ctx, C, [GEN_CURSOR], [DRV_BYTES])
 
 
 PLANS = {
+    "C20": dict(level="model_checking", run=run_c20, assumptions=ASSUME_CODEC,
+                rule="HeapLife.tla (ownership of octets) model-checked exhaustively to 6 operations, with three knob-off sanity runs; every history "
+                     "over {decode, unprotect, scribble input, encode, scribble output, protect, observe} up to MaxOps is replayed on a pool message "
+                     "(every payload kind, so every Unmarshal copy site) with real buffers that are really overwritten; projections compared after every step"),
     "C19": dict(level="model_checking", run=run_c19, assumptions=ASSUME_CODEC + ["3GPP layouts transcribed from TS 24.502 9.3 as quoted in the property"],
                 rule="TLC explores the builder state machine (Builders.tla): every builder with pooled arguments (boundary sizes incl. the 16-bit payload "
                      "limit and oversize NAS PDUs / QFI lists, all flag combinations), sub-builders (proposal/transform/selector/attribute), every "
